@@ -464,6 +464,9 @@ def canon_pred(t: Term) -> Tuple[Term, bool]:
             t = t[1]
             pol = not pol
             continue
+        if t[0] == "call" and t[1] == ("name", "bool") and len(t[2]) == 1 and not t[3]:
+            t = t[2][0]  # as a test, bool(x) is x
+            continue
         if t[0] == "cmp":
             op, l, r = t[1], t[2], t[3]
             if op in ("!=", "is not", "not in"):
@@ -580,6 +583,8 @@ class World:
             if isinstance(a, (int, float)) and isinstance(b, (int, float)) and not isinstance(a, bool) and not isinstance(b, bool):
                 return a + b if t[1] == "+" else (a - b if t[1] == "-" else a * b)
             raise Unrecognised(f"arithmetic on non-numeric model values in {key(t)}")
+        if k == "call" and t[1] == ("name", "bool") and len(t[2]) == 1 and not t[3]:
+            return bool(self.eval(t[2][0]))
         if k == "un" and t[1] == "-":
             a = self.eval(t[2])
             if isinstance(a, (int, float)) and not isinstance(a, bool):
